@@ -439,6 +439,38 @@ def correspond(ctx):
                 dg = [abs(R_[i][i]) for i in range(r_)]
                 if any(dg[i] < dg[i + 1] * (1 - 1e-9) for i in range(r_ - 1)): viol('geqp3-diagonal', 'geqp3: |R[i,i]| is not non-increasing: %r' % dg, dict(desc0, A=list(G), m=m, n=nn))
         except Exception as e: viol('raises-on-valid:geqp3', 'geqp3 raised %s (%s)' % (type(e).__name__, e), dict(desc0, A=list(G), m=m, n=nn))
+        # exactly singular / not positive definite inputs: every factorisation and driver whose LAPACK routine reports it (info > 0) raises ArithmeticError,
+        # and the factorisation agrees with the one-call driver about it.  Exact zeros that survive the elimination: a zero row and column (symmetric /
+        # hermitian), a zero column (general, tridiagonal), a zero diagonal entry (triangular), a negative diagonal entry (positive definite routines)
+        rs = random.Random(ctx.seed * 1009 + it); rng_keep, rng = rng, rs          # own stream (the helpers draw from `rng`)
+        n = rs.randint(2, 5); p_ = rs.randrange(n); uplo = rs.choice('LU'); Bs = rand(n, rs.randint(1, 2), tc)
+        d_ = dict(desc0, n=n, position=p_, uplo=uplo)
+        Gs = wellcond(n, tc); Gs[:, p_] = 0.0
+        expect_exc('getrf-singular', lambda: lapack.getrf(+Gs, matrix(0, (n, 1))), (ArithmeticError,), 'getrf of a matrix with a zero column', dict(d_, A=list(Gs)))
+        expect_exc('gesv-singular-column', lambda: lapack.gesv(+Gs, +Bs), (ArithmeticError,), 'gesv with a zero column', dict(d_, A=list(Gs)))
+        Ss = symm_only(n, tc) + (3 * n + 2) * eye(n, tc); Ss[:, p_] = 0.0; Ss[p_, :] = 0.0
+        Sst = tri_store(Ss, uplo, rs)
+        expect_exc('sytrf-singular', lambda: lapack.sytrf(+Sst, matrix(0, (n, 1)), uplo=uplo), (ArithmeticError,), 'sytrf of a symmetric matrix with a zero row and column', dict(d_, A=list(Ss)))
+        expect_exc('sysv-singular', lambda: lapack.sysv(+Sst, +Bs, uplo=uplo), (ArithmeticError,), 'sysv with a zero row and column', dict(d_, A=list(Ss)))
+        expect_exc('sysv-ipiv-singular', lambda: lapack.sysv(+Sst, +Bs, ipiv=matrix(0, (n, 1)), uplo=uplo), (ArithmeticError,), 'sysv(ipiv) with a zero row and column', dict(d_, A=list(Ss)))
+        Hs = herm(n, tc) + (3 * n + 2) * eye(n, tc); Hs[:, p_] = 0.0; Hs[p_, :] = 0.0
+        Hst = tri_store(Hs, uplo, rs)
+        expect_exc('hetrf-singular', lambda: lapack.hetrf(+Hst, matrix(0, (n, 1)), uplo=uplo), (ArithmeticError,), 'hetrf of a hermitian matrix with a zero row and column', dict(d_, A=list(Hs)))
+        expect_exc('hesv-singular', lambda: lapack.hesv(+Hst, +Bs, uplo=uplo), (ArithmeticError,), 'hesv with a zero row and column', dict(d_, A=list(Hs)))
+        Ts = wellcond(n, tc); Ts[p_, p_] = 0.0
+        Tst = tri_store(Ts, uplo, rs)
+        expect_exc('trtrs-singular', lambda: lapack.trtrs(+Tst, +Bs, uplo=uplo), (ArithmeticError,), 'trtrs with a zero diagonal entry', dict(d_, A=list(Ts)))
+        expect_exc('trtri-singular', lambda: lapack.trtri(+Tst, uplo=uplo), (ArithmeticError,), 'trtri with a zero diagonal entry', dict(d_, A=list(Ts)))
+        Pn = herm(n, tc, pd=True); Pn[p_, p_] = -1.0
+        Pnt = tri_store(Pn, uplo, rs)
+        expect_exc('posv-not-pd', lambda: lapack.posv(+Pnt, +Bs, uplo=uplo), (ArithmeticError,), 'posv with a negative diagonal entry', dict(d_, A=list(Pn)))
+        dd = matrix([float(rs.randint(3, 6)) for _ in range(n)]); ee = rand(n - 1, 1, tc); dd[p_] = -1.0
+        expect_exc('ptsv-not-pd', lambda: lapack.ptsv(+dd, +ee, +Bs), (ArithmeticError,), 'ptsv with a negative diagonal entry', dict(d_, d=list(dd)))
+        expect_exc('pttrf-not-pd', lambda: lapack.pttrf(+dd, +ee), (ArithmeticError,), 'pttrf with a negative diagonal entry', dict(d_, d=list(dd)))
+        dl = rand(n - 1, 1, tc); dg = rand(n, 1, tc) + (5 + 0 * dd[0]); du = rand(n - 1, 1, tc); dg[0] = 0.0; dl[0] = 0.0
+        expect_exc('gtsv-singular', lambda: lapack.gtsv(+dl, +dg, +du, +Bs), (ArithmeticError,), 'gtsv with a zero first column', dict(d_, d=list(dg)))
+        expect_exc('gttrf-singular', lambda: lapack.gttrf(+dl, +dg, +du, matrix(0.0, (max(n - 2, 0), 1), tc), matrix(0, (n, 1))), (ArithmeticError,), 'gttrf with a zero first column', dict(d_, d=list(dg)))
+        rng = rng_keep
         # orgqr / ungqr / orglq / unglq with fewer reflectors than columns (rows), down to none: Q = H_1 ... H_k is then the identity on the remaining
         # part - in particular with k = 0 (empty tau: the Q of a factorisation of an m x 0 matrix) the array is overwritten by columns of I
         m = rng.randint(1, 5); nn = rng.randint(1, m)
